@@ -325,8 +325,34 @@ class TaylorFlow:
 
     def __init__(self):
         self.calls = []
+        self.starts = []      # the time at which each integration was started (must be the caller's tmin: autonomous systems)
 
-    def _solve(self, dfunc, X0, times, args):
+    def ode(self, f, jac=None):
+        """scipy.integrate.ode(f), f(t, y): the start time is an argument of set_initial_value and is recorded"""
+        flow = self
+
+        class _Ode:
+            def set_integrator(self, *a, **k):
+                return self
+
+            def set_initial_value(self, y, t=0.0):
+                flow.starts.append(t)
+                self.rows = None
+                self.y0 = y
+                return self
+
+            def integrate(self, t, step=False, relax=False):
+                if self.rows is None:
+                    self.rows = flow._solve(lambda X, tt: f(tt, X), self.y0, [None, None], (), record_start=False)
+                return self.rows[1]
+
+            def successful(self):
+                return True
+        return _Ode()
+
+    def _solve(self, dfunc, X0, times, args, record_start=True):
+        if record_start:
+            self.starts.append(list(times)[0])
         M = ORDER[0]
         x0 = [lift0(v) for v in np.asarray(X0, dtype=object).reshape(-1)]
         x = list(x0)
@@ -368,6 +394,15 @@ class NPT:
         z.fill(1)
         return z
 
+    def empty(self, shape, *a, **k):
+        return self.zeros(shape)
+
+    def zeros_like(self, x, *a, **k):
+        return self.zeros(np.shape(x))
+
+    def empty_like(self, x, *a, **k):
+        return self.zeros(np.shape(x))
+
     def array(self, x, *a, **k):
         k.pop('dtype', None)
         try:
@@ -396,7 +431,7 @@ def install(an):
         _ORIG.update(integrate=an.integrate, np=an.np, shift=an.shift, my=an._my_odeint_)
     flow = TaylorFlow()
     an.integrate = flow
-    an._my_odeint_ = flow.my_odeint
+    # (_my_odeint_ itself is executed and drives the integrate.ode emulation)
     an.np = NPT()
     an.shift = exact_shift
     an.float = lambda v=0.0: v if isinstance(v, (Series, Poly, Fr)) else builtins.float(v)
